@@ -289,6 +289,10 @@ func checkUnfiltered(r *core.Run, m string, gs *types.Named, st *types.Struct, e
 				}
 			}
 		}
+		if !okLoop {
+			// the loop may be a helper that receives the list and the setter:  forEach(ctx, genState.<fn>, k.SetX)
+			okLoop = importViaHelper(r, imp, fn)
+		}
 		if okLoop {
 			r.Discharge("E6-all", keyI, r.P.FuncPos(imp), "InitGenesis ranges over the list and persists every element")
 		} else {
@@ -318,6 +322,10 @@ func getterExportsAll(r *core.Run, g *ssa.Function) string {
 	}
 	loops := cfgx.Loops(g)
 	if len(loops) == 0 {
+		// the walk may be delegated to a helper outside the vocabulary whose result is returned as it is
+		if h := returnsResultOf(r, g); h != nil {
+			return getterExportsAll(r, h)
+		}
 		return getterViaCallback(r, g)
 	}
 	if len(loops) != 1 {
@@ -793,4 +801,113 @@ func ruleGenesisPairs(r *core.Run, id, m string) {
 		}
 	}
 	r.Count("genesis_scalar_pairs_"+m, n)
+}
+
+// returnsResultOf: every return of g hands back, unmodified, the result of one call of a transparent helper.
+func returnsResultOf(r *core.Run, g *ssa.Function) *ssa.Function {
+	var h *ssa.Function
+	for _, b := range g.Blocks {
+		ret, ok := b.Instrs[len(b.Instrs)-1].(*ssa.Return)
+		if !ok {
+			continue
+		}
+		if len(ret.Results) != 1 {
+			return nil
+		}
+		c, ok := ret.Results[0].(*ssa.Call)
+		if !ok {
+			return nil
+		}
+		f := c.Call.StaticCallee()
+		if f == nil || f == g || !r.P.Transparent(f) || len(f.Blocks) == 0 || (h != nil && h != f) {
+			return nil
+		}
+		h = f
+	}
+	return h
+}
+
+// importViaHelper: InitGenesis (or a helper under it) calls a helper h with genState.<field> and a function value;
+// h ranges over that list parameter and calls that function parameter on every iteration; the function value is a
+// (method) value that writes the store.
+func importViaHelper(r *core.Run, imp *ssa.Function, field string) bool {
+	for _, f := range transparentClosure(r, imp) {
+		res := r.Resolver(f)
+		for _, b := range f.Blocks {
+			for _, ins := range b.Instrs {
+				call, ok := ins.(ssa.CallInstruction)
+				if !ok || call.Common().IsInvoke() {
+					continue
+				}
+				h := call.Common().StaticCallee()
+				if h == nil || !r.P.Transparent(h) || len(h.Blocks) == 0 {
+					continue
+				}
+				args := call.Common().Args
+				li, fi := -1, -1
+				for i, a := range args {
+					if strings.HasSuffix(normT(res.Of(a).String()), "."+field) {
+						li = i
+					}
+					if _, isSig := a.Type().Underlying().(*types.Signature); isSig {
+						if w := funcOfValue(r, a); w != nil && hasWrites(r, []*ssa.Function{w}) {
+							fi = i
+						}
+					}
+				}
+				if li < 0 || fi < 0 || li >= len(h.Params) || fi >= len(h.Params) {
+					continue
+				}
+				// h: a loop over parameter li calling parameter fi in every iteration
+				for _, l := range cfgx.Loops(h) {
+					iff := cfgx.IfOf(l.Header)
+					if iff == nil {
+						continue
+					}
+					bo, ok := iff.Cond.(*ssa.BinOp)
+					if !ok {
+						continue
+					}
+					lc, ok := bo.Y.(*ssa.Call)
+					if !ok || len(lc.Call.Args) != 1 || lc.Call.Args[0] != ssa.Value(h.Params[li]) {
+						continue
+					}
+					callB := map[*ssa.BasicBlock]bool{}
+					for hb := range l.Body {
+						for _, hi := range hb.Instrs {
+							if c2, ok := hi.(ssa.CallInstruction); ok && c2.Common().Value == ssa.Value(h.Params[fi]) {
+								callB[hb] = true
+							}
+						}
+					}
+					if len(callB) > 0 && cutsAllCycles(l, callB) {
+						return true
+					}
+				}
+			}
+		}
+	}
+	return false
+}
+
+// funcOfValue: the function a function value denotes — a function, a closure, or a bound method value.
+func funcOfValue(r *core.Run, v ssa.Value) *ssa.Function {
+	switch x := v.(type) {
+	case *ssa.Function:
+		return x
+	case *ssa.MakeClosure:
+		f, _ := x.Fn.(*ssa.Function)
+		if f != nil && f.Synthetic != "" {
+			// bound method wrapper: the method itself
+			if m, ok := f.Object().(*types.Func); ok {
+				if t := r.P.SSA.FuncValue(m); t != nil {
+					return t
+				}
+			}
+		}
+		return f
+	case *ssa.ChangeType:
+		return funcOfValue(r, x.X)
+	}
+	return nil
 }
